@@ -476,9 +476,9 @@ class Responder(object):
         Service application
         """
         if not self.closed and not self.ended:
-            if self.iterator is None:  # initiate application
-                self.iterator = iter(self.app(self.environ, self.start))
             try:
+                if self.iterator is None:  # initiate application, may raise HTTPError
+                    self.iterator = iter(self.app(self.environ, self.start))
                 msg = next(self.iterator)
             except StopIteration as ex:
                 if hasattr(ex, "value") and ex.value:
@@ -502,6 +502,8 @@ class Responder(object):
                     console.terse("HTTPError streaming body after headers sent.\n"
                                     "{}\n".format(ex))
             except Exception as ex:  # handle http exceptions not caught by app
+                if self.iterator is None:  # app callable itself failed
+                    raise
                 console.terse("Unexcepted Server Error.\n"
                                     "{}\n".format(ex))
             else:
